@@ -24,6 +24,22 @@ build_race() {
     exit 2
   fi
 }
+build_firstuse() {
+  # the plain (non-race) harness with one file of the JSON library overlaid: the unsynchronised publication of a
+  # compiled decoder is stretched (harness/overlay/compile_norace.go.txt), used only by C18's first-use children
+  local dir
+  dir="$(go list -m -f '{{.Dir}}' github.com/goccy/go-json 2>/dev/null)"
+  if [ -z "$dir" ] || [ ! -f "$dir/internal/decoder/compile_norace.go" ]; then
+    rm -f "$BIN-firstuse"   # the dependency changed: the first-use part reports itself inconclusive
+    return 0
+  fi
+  printf '{"Replace": {"%s": "%s"}}\n' "$dir/internal/decoder/compile_norace.go" "$VERIF_ROOT/harness/overlay/compile_norace.go.txt" > "$VERIF_ROOT/.build/overlay.json"
+  if ! go build -tags verif -overlay "$VERIF_ROOT/.build/overlay.json" -o "$BIN-firstuse" ./cmd/vcheck 2>"$VERIF_ROOT/.build/build-firstuse.log"; then
+    cat "$VERIF_ROOT/.build/build-firstuse.log"
+    echo "INCONCLUSIVE property=C18 reason=first-use build of harness failed"
+    exit 2
+  fi
+}
 build_shovel() {
   # the real binary for the route-level part of C19, from /repo's working tree (through the harness module's replace)
   if ! go build -o "$VERIF_ROOT/.build/shovel" github.com/indexsupply/shovel/cmd/shovel 2>"$VERIF_ROOT/.build/build-shovel.log"; then
@@ -33,10 +49,10 @@ build_shovel() {
   fi
 }
 case "${1:-}" in
-  build) build; build_race; build_shovel; exit 0 ;;
+  build) build; build_race; build_firstuse; build_shovel; exit 0 ;;
   C19) build C19; build_shovel; exec "$BIN" run C19 --tier "${2:-${VERIF_TIER:-quick}}" ;;
   replay) build; exec "$BIN" replay "$ARG2" ;;
-  C18) build C18; build_race C18; exec "$BIN" run C18 --tier "${2:-${VERIF_TIER:-quick}}" --worker-exe "$BIN-race" ;;
+  C18) build C18; build_race C18; build_firstuse; exec "$BIN" run C18 --tier "${2:-${VERIF_TIER:-quick}}" --worker-exe "$BIN-race" ;;
   C[0-9][0-9]) build "$1"; exec "$BIN" run "$1" --tier "${2:-${VERIF_TIER:-quick}}" ;;
   *) echo "usage: $0 <Cxx> [quick|thorough] | replay <file> | build"; exit 2 ;;
 esac
